@@ -170,6 +170,70 @@ def is_buf_place(place):
     return False
 
 
+def scratch_design(rep, prog, cfg, b, g, fl, rbb, rt, vbb, vt, V, scratch):
+    """add_argument in the render-validate-append form (see arg_rules)."""
+    def refs(local, base):
+        for bb2, i2, s2 in b.stmts():
+            if s2["k"] == "assign" and s2["place"]["l"] == local and s2["rv"]["k"] == "ref" and s2["rv"]["place"]["l"] == base and s2["rv"]["place"]["p"] in ([], ["*"]):
+                return True
+        return False
+
+    def derives_from_scratch(op):
+        l = op_local(op)
+        if l is None:
+            return False
+        leaves, vis = fl.sources([l], through_call=lambda t2, k=None: (0,), follow_mut=False)
+        return scratch in vis
+    rep.check(g.dom(rbb, vbb) and derives_from_scratch(vt["args"][0]), "C07.arg-lf", cfg + "/validates the rendered bytes", b.loc(b.blocks[vbb]["ts"]),
+              "the validator is not applied to the buffer the argument was rendered into")
+    # the result of the validation
+    sw = b.blocks[vt["target"]]["t"]
+    err_t = [x for v, x in sw["targets"] if v == 1] if sw["k"] == "switch" else []
+    ok_t = [x for x in ([sw["otherwise"]] + [x for v, x in sw["targets"] if v == 0])] if sw["k"] == "switch" else []
+    ok_t = [x for x in ok_t if x not in err_t]
+    if not err_t or not ok_t:
+        rep.fail("C07.rollback", cfg + "/err arm", b.loc(b.span), "cannot see the Err arm of the validation result")
+        return
+    # mutations of the command buffer
+    muts = []
+    for bb, t in b.calls():
+        for a in t["args"][:1]:
+            l = op_local(a)
+            if l is None:
+                continue
+            for bb2, i2, s2 in b.stmts():
+                if s2["k"] == "assign" and s2["place"]["l"] == l and s2["rv"]["k"] == "ref" and s2["rv"]["mut"] and is_buf_place(s2["rv"]["place"]):
+                    muts.append((bb, t))
+    ok_region = reach(g.succs, ok_t, avoid=[vbb])
+    before_or_err = [bb for bb, t in muts if bb not in ok_region or bb in reach(g.succs, err_t, avoid=[vbb] + ok_t)]
+    rep.check(not before_or_err, "C07.rollback", cfg + "/command untouched unless valid", b.loc(b.span),
+              "the command buffer is modified before the rendered argument was validated, or on the rejected path: a rejected argument would leave "
+              "the command changed")
+    seps = [(bb, t) for bb, t in muts if "bytes::buf::buf_mut::BufMut::put_u8" in callee_names(t)]
+    apps = [(bb, t) for bb, t in muts if any(n in ("bytes::bytes_mut::BytesMut::extend_from_slice", "bytes::buf::buf_mut::BufMut::put_slice",
+                                                     "bytes::buf::buf_mut::BufMut::put", "bytes::bytes_mut::BytesMut::unsplit") for n in callee_names(t))]
+    other = [callee_names(t)[0] for bb, t in muts if (bb, t) not in seps and (bb, t) not in apps
+             and not any(n in ("bytes::bytes_mut::BytesMut::reserve", "bytes::bytes_mut::BytesMut::len") for n in callee_names(t))]
+    sep_ok = len(seps) == 1 and const_int(op_const(seps[0][1]["args"][1])) == 32 and not any(seps[0][0] in l for l in g.loops)
+    app_ok = len(apps) == 1 and len(apps[0][1]["args"]) > 1 and derives_from_scratch(apps[0][1]["args"][1]) and not any(apps[0][0] in l for l in g.loops)
+    rep.check(sep_ok and app_ok and not other and g.dom(seps[0][0], apps[0][0]) if seps and apps else False, "C07.arg-lf", cfg + "/one unconditional separator",
+              b.loc(b.span),
+              "on the accepted path add_argument must write exactly one space and then exactly the validated bytes (found %d separator(s), %d append(s) of the "
+              "validated buffer, other writes %s): what reaches the command would differ from what was checked" % (len(seps), len([x for x in apps]), other))
+    renders = [bb for bb, t in b.calls() if M + "Argument::render" in callee_names(t)]
+    rep.check(len(renders) == 1 and not any(renders[0] in l for l in g.loops), "C07.arg-lf", cfg + "/validation after rendering", b.loc(b.span),
+              "the argument is rendered more than once: the bytes appended may differ from the bytes validated")
+    try:
+        sc = scan_of(prog, V)
+        rep.check(sc["bad"] == [(10, 10)], "C07.arg-lf", cfg + "/rejects exactly LF", V.loc(V.span),
+                  "the argument validator rejects %s, it must reject the line feed (and nothing that legitimately occurs in arguments)" % charset.fmt_set(sc["bad"]),
+                  detail={"rejects": charset.fmt_set(sc["bad"])})
+        rep.check(found_rejects(V, sc) and sc["receiver_ok"], "C07.arg-lf", cfg + "/scan over the raw bytes", V.loc(V.span),
+                  "the line-feed scan does not run directly over the bytes it was given (goes through %s), or a hit does not lead to Err" % (sc["receiver_via"] or "?"))
+    except charset.Opaque as e:
+        rep.fail("C07.arg-lf", cfg + "/validator", V.loc(V.span), "the argument validator is not analysable (%s): failing closed" % e)
+
+
 def arg_rules(rep, prog, cfg):
     aa = body_by_name(prog, M + "Command::add_argument")
     if len(aa) != 1:
@@ -188,6 +252,28 @@ def arg_rules(rep, prog, cfg):
     rbb, rt = render[0]
     vbb, vt = vcalls[0]
     V = prog.bodies[callee(vt)["def"]]
+    # design B: the argument is rendered once into a scratch buffer, the scratch buffer is validated, and only then appended
+    # (separator + the very same bytes); a rejected argument never touches the command
+    target = op_local(rt["args"][1]) if len(rt["args"]) > 1 else None
+    into_cmd = False
+    scratch = None
+    cur = target
+    for _ in range(5):   # through reborrows `&mut (*x)`
+        nxt = None
+        for bb2, i2, s2 in b.stmts():
+            if s2["k"] == "assign" and s2["place"]["l"] == cur and not s2["place"]["p"] and s2["rv"]["k"] == "ref":
+                if is_buf_place(s2["rv"]["place"]):
+                    into_cmd = True
+                elif not s2["rv"]["place"]["p"]:
+                    scratch = s2["rv"]["place"]["l"]
+                elif s2["rv"]["place"]["p"] == ["*"]:
+                    nxt = s2["rv"]["place"]["l"]
+        if into_cmd or scratch is not None or nxt is None:
+            break
+        cur = nxt
+    if not into_cmd and scratch is not None:
+        scratch_design(rep, prog, cfg, b, g, fl, rbb, rt, vbb, vt, V, scratch)
+        return
     rep.check(g.pdom(vbb, rbb) and g.dom(rbb, vbb), "C07.arg-lf", cfg + "/validation after rendering", b.loc(b.blocks[vbb]["ts"]),
               "the argument validation does not run after Argument::render on every path: a renderer's output could reach the wire unchecked")
     # exactly one separator byte is written, unconditionally, between taking the length and rendering: the validated
